@@ -119,6 +119,10 @@ def run(tier):
     layout_match.use_conditions(P)
     layout_match.identifier_operands(g, rep, "C05.operand", shapes=("bare", "negated", "in-sum", "directive", "negated-directive"), floor=70)
     evaluation_depth_vs_line_guard(P, rep)
+    # an expression handed to a macro is written out and parsed again: it must come back as the same expression
+    import rules_C09
+    from common import Rekey
+    rules_C09.printers_rule(P, Rekey(rep, "C09.print|", "C05.reparse|"))
     import rules_C02
     rules_C02.byte_operand_dropped(P, rep, "C05.errors|byte-operand", "the expression is never evaluated, so `.byte 1/0` or `.byte 1<<64` builds instead of failing, and `.byte 2*4` reserves nothing")
     return rep
